@@ -102,7 +102,7 @@ func dumpOf(n schema.Node) *dnode {
 		a = append(a, "must="+hexTok(m.Mach.GetExpr()))
 	}
 	d.attrs = strings.Join(a, " ")
-	core := []string{fmt.Sprintf("cfg=%v", n.Config()), fmt.Sprintf("st=%d", int(n.Status()))}
+	core := []string{"ns=" + n.Module(), fmt.Sprintf("cfg=%v", n.Config()), fmt.Sprintf("st=%d", int(n.Status()))}
 	switch v := n.(type) {
 	case schema.Container:
 		core = append(core, fmt.Sprintf("flag=%v", v.Presence()))
